@@ -19,6 +19,7 @@ from .. import runner
 from ..worker import Worker, arg, unjson
 
 LEVEL = "exploration"
+BUILDS = [("asan", ["lpcvm"]), ("fuzz", ["fuzz_compile"])]      # built by the parent process before the shards start
 RULE = ("cases = (a) sequences of 1-4 generated source texts (random bytes / token soup / token-level mutants of valid LPC / extreme shapes / "
         "preprocessor-state leavers, with a pool of include files) compiled in one driver, then a fixed probe program and a generated valid program "
         "(C03 grammar) compiled and called; the same two compiled and called in a fresh driver give the reference; (b) a coverage-guided campaign of the libFuzzer target fuzz_compile (bytes -> file [+ include file] -> load; then the probe "
@@ -132,7 +133,13 @@ END
 ;
   return ({ evaluate(f, 1, 2), evaluate(g, 5), evaluate(h, 5), p->x, p->tag, catch(error("e\n")), sprintf("%O", ({ 1.5, 'a', 0x10 })) });
 }
-mixed run_probe() { return ({ g_counter, probe(1, 2), many(1, "b", 3, 4), sw(0), sw(3), ssw("a"), ssw("cc"), sw(100), loops(7), funcs(), sizeof(g_names) }); }
+mixed efuns_used() {
+  function a = (: strlen :);
+  function b = (: time :);
+  function c = (: member_array :);
+  return ({ evaluate(a, "four"), functionp(b), evaluate(c, 2, ({ 1, 2 })), sizeof(explode("a b c", " ")), this_object() == this_object(), random(1), intp(time()) });
+}
+mixed run_probe() { return ({ efuns_used(), g_counter, probe(1, 2), many(1, "b", 3, 4), sw(0), sw(3), ssw("a"), ssw("cc"), sw(100), loops(7), funcs(), sizeof(g_names) }); }
 '''
 PARENT = 'int parent_fn() { return 11; }\n'
 
@@ -326,7 +333,15 @@ def x_extreme(draw):
 @st.composite
 def x_leaver(draw):
     """sources built to leave lexer / preprocessor / compiler state behind when their compilation ends early"""
-    k = draw(st.integers(0, 11))
+    k = draw(st.integers(0, 14))
+    efn = draw(st.sampled_from(["time", "strlen", "sizeof", "member_array", "explode", "write", "this_object", "random"]))
+    if k == 12:
+        # an efun's name defined twice over in one file (valid LPC): what the compiler remembers about the name must be gone afterwards
+        return "int %s;\nint %s() { return %s; }\n" % (efn, efn, efn)
+    if k == 13:
+        return "class %s { int a; }\nint %s;\nint f() { return %s; }\n" % (efn, efn, efn)
+    if k == 14:
+        return "int %s;\nclass %s { int x; }\nint %s(int a) { return a; }\nint g() { return %s(%s +; }\n" % (efn, efn, efn, efn, efn)
     opener = draw(st.sampled_from(["#if 1\n", "#ifdef M9\n#else\n", "#ifndef GUARD_X\n#define GUARD_X\n", "#if 1\n#if 1\n#if 0\n#else\n"]))
     if k == 0:
         return opener + "#if @\n"
